@@ -26,7 +26,7 @@ def match(kf, oracle, tags):
     for e in kf:
         if e["status"] != "known":
             continue
-        if e["oracle"] == oracle and set(e["tags"]) <= tags:
+        if oracle in e.get("oracles", [e["oracle"]]) and set(e["tags"]) <= tags:
             return e
     return None
 
